@@ -1,5 +1,6 @@
 """C02 — a commit publishes exactly the sequential effect of the operations: only the protocol
 clauses (atomic opstamps, join before commit, commit task dataflow, batch unit)."""
+import re
 from ..model import (Ev, must_precede, must_pass, trace_through, trace_back, op_local, op_place, place_local, is_bare, provenance, proj_fields)
 from ..rules import (rule_precede, rule_must_pass, rule_result_checked, get_body, calls_to, site, short, rule_who_may_call,
                      option_root, guard_live_at, locals_of_type, return_defs, rule_after_loop, rule_loop_exhausted)
@@ -26,6 +27,7 @@ def run(rep, prog, tier):
     from .c04 import merged_cursor
     merged_cursor(rep, prog, "C02-R7")
     r8(rep, prog)
+    r9(rep, prog)
     rep.rule("C02-R6", "an accepted batch is indexed completely: in index_documents the loop over one document group (the adds of one IndexWriter::run batch, already stamped and acknowledged) is left only when its iterator is exhausted or with an error; a `break` out of it on an Ok path drops acknowledged adds")
     rule_loop_exhausted(rep, prog, "C02-R6", I + "index_writer::index_documents", {I + "segment_writer::SegmentWriter::add_document"}, "the documents of one group")
 
@@ -57,6 +59,29 @@ def r8(rep, prog):
     rep.check(bool(on_commit), R, "IndexWriter::committed_opstamp is updated on the commit path", "written by %s" % [short(w) for w in on_commit],
               "the field IndexWriter::committed_opstamp is written only by %s and by nothing that commit reaches: after any number of successful commits `commit_opstamp()` still reports the commit that was "
               "current when the writer was created, and delete_all_documents() rewinds the opstamp generator to that stale value" % sorted(short(w) for w in writers), site=prog.bodies[entries[0]].span)
+
+
+def r9(rep, prog):
+    """delete-all also covers the documents that are still in the indexing pipeline"""
+    R = "C02-R9"
+    rep.rule(R, "delete-all covers the pipeline: documents accepted before delete_all_documents() may still sit in the operation channel or in a worker's open SegmentWriter; so delete_all_documents (like rollback and prepare_commit) must synchronise with the indexing workers — close / recreate the document channel, join the workers or drain the receiver — before or while it clears the segment registers. Clearing only the registers lets `add a; delete_all; add b; commit` publish a")
+    fid = IW + "delete_all_documents"
+    b = get_body(rep, prog, R, fid)
+    if b is None:
+        return
+    SYNC = re.compile(r"IndexWriter::<D>::(recreate_document_channel|operation_receiver|drop_sender)$|JoinHandle::<T>::join$|IndexWriterStatus::<D>::operation_receiver$")
+    reach = prog.reachable_bodies([fid], scope=lambda y: y.startswith(("tantivy::indexer::", "<tantivy::indexer::")))
+    hit = []
+    for f in sorted(reach | {fid}):
+        bb = prog.bodies.get(f)
+        if bb is None:
+            continue
+        for bi, t in bb.calls():
+            if SYNC.search(t.get("res") or t.get("f") or ""):
+                hit.append(short(f))
+    rep.check(bool(hit), R, "delete_all_documents synchronises with the indexing workers", "%s" % sorted(set(hit)),
+              "IndexWriter::delete_all_documents only clears the segment registers (it reaches no channel recreation, worker join or receiver drain): documents that were acknowledged before the call "
+              "but are still in the channel or in a worker's segment writer survive the delete-all and are published by the next commit", site=b.span)
 
 
 def r1(rep, prog):
